@@ -605,6 +605,18 @@ theorem j_rebuffer (h : Bytes → HRes) (i e : Nat) (w : W) (d : Nat → Nat)
   obtain ⟨p, _, hp, _⟩ := hA
   exact j_insertEv h i e true w p hp d hj
 
+/-- ... and it touches neither the event records nor the counters: in particular it accepts nothing -/
+theorem q_rebuffer (h : Bytes → HRes) (i e : Nat) (w : W) (d : Nat → Nat)
+    (hj : J h w i (fun x => (if x = e then 1 else 0) + d x)) : Quiet w (acceptEvent i e true w) := by
+  have hacc : accepted w i e = true := by
+    have := hj.led i e
+    simp only [if_true] at this
+    cases ha : accepted w i e
+    · rw [ha] at this; simp at this
+    · rfl
+  rw [rebuffer_eq_insertEv i e w (acc_of_accepted hj.sv i e hacc)]
+  exact quiet_insertEv i e true w
+
 /-! ### `notify` -/
 
 theorem j_newEvent (h : Bytes → HRes) (w : W) (k : Nat) (d : Nat → Nat) (c : Cls) (payload : Bytes) (hj : J h w k d) :
@@ -706,11 +718,11 @@ theorem rejL_cons (x : Nat) (o : Listener.Out) (os : List Listener.Out) :
     takes its event out of transit -- the first for good, the second back to the head of the pool's buffer -/
 theorem j_absorb (h : Bytes → HRes) (pi li : Nat) : ∀ (os : List Listener.Out) (w : W),
     (∃ p, w.pools[pi]? = some p ∧ li < p.procs.length) →
-    J h w pi (fun x => okL h x os + rejL x os) → J h (absorb pi li os w) pi (fun _ => 0)
+    J h w pi (fun x => okL h x os + rejL x os) → J h (absorb pi li os w) pi (fun _ => 0) ∧ Quiet w (absorb pi li os w)
   | [], w, _, hj => by
     have : absorb pi li [] w = w := rfl
     rw [this]
-    exact J.congr_d (by intro x; simp [okL, rejL]) hj
+    exact ⟨J.congr_d (by intro x; simp [okL, rejL]) hj, Quiet.refl w⟩
   | o :: os, w, hpl, hj => by
     obtain ⟨p, hp, hli⟩ := hpl
     -- the entry is recorded
@@ -727,9 +739,12 @@ theorem j_absorb (h : Bytes → HRes) (pi li : Nat) : ∀ (os : List Listener.Ou
       obtain ⟨p', hp', hk⟩ := kview_fwd hq pi p hp
       simp only [kview, Prod.mk.injEq] at hk
       exact ⟨p', hp', by rw [hk.2.2.2]; exact hli⟩
-    have hplain : (∀ x, isRejOut x o = false) → J h (absorb pi li os { w with outs := w.outs ++ [.lis pi li o] }) pi (fun _ => 0) := by
+    have hq1 : Quiet w { w with outs := w.outs ++ [.lis pi li o] } := quiet_outs w _
+    have hplain : (∀ x, isRejOut x o = false) → J h (absorb pi li os { w with outs := w.outs ++ [.lis pi li o] }) pi (fun _ => 0) ∧
+        Quiet w (absorb pi li os { w with outs := w.outs ++ [.lis pi li o] }) := by
       intro hr
-      exact j_absorb h pi li os _ (hkeep _ (Quiet.refl _)) (J.congr_d (by intro x; rw [rejL_cons, hr x]; simp) h1)
+      obtain ⟨a, b⟩ := j_absorb h pi li os _ (hkeep _ (Quiet.refl _)) (J.congr_d (by intro x; rw [rejL_cons, hr x]; simp) h1)
+      exact ⟨a, Quiet.trans hq1 b⟩
     cases o with
     | rejected ev =>
       cases ev with
@@ -741,15 +756,21 @@ theorem j_absorb (h : Bytes → HRes) (pi li : Nat) : ∀ (os : List Listener.Ou
             acceptEvent pi e true { w with outs := w.outs ++ [.lis pi li (.rejected (some e))] } :=
           rejected_eq _ pi e _ p hp ho1 ho2
         rw [hrej]
-        have h2 := j_rebuffer h pi e _ (fun x => okL h x os + rejL x os)
-          (J.congr_d (by
+        have h1' : J h { w with outs := w.outs ++ [.lis pi li (.rejected (some e))] } pi
+            (fun x => (if x = e then 1 else 0) + (okL h x os + rejL x os)) :=
+          J.congr_d (by
             intro x
             rw [rejL_cons]
             by_cases hx : x = e
             · subst hx; simp [isRejOut]; omega
             · have : (e == x) = false := by simpa using fun hh => hx hh.symm
-              simp [isRejOut, hx, this]) h1)
-        refine j_absorb h pi li os _ ?_ h2
+              simp [isRejOut, hx, this]) h1
+        have h2 := j_rebuffer h pi e _ (fun x => okL h x os + rejL x os) h1'
+        have hq2 := q_rebuffer h pi e _ (fun x => okL h x os + rejL x os) h1'
+        suffices hs : ∃ p', (acceptEvent pi e true { w with outs := w.outs ++ [.lis pi li (.rejected (some e))] }).pools[pi]? = some p' ∧
+            li < p'.procs.length by
+          obtain ⟨a, b⟩ := j_absorb h pi li os _ hs h2
+          exact ⟨a, Quiet.trans hq1 (Quiet.trans hq2 b)⟩
         have hA : Acc { w with outs := w.outs ++ [.lis pi li (.rejected (some e))] } pi e := by
           refine acc_of_accepted h1.sv pi e ?_
           have := h1.led pi e
@@ -822,15 +843,15 @@ theorem j_setProc (h : Bytes → HRes) (w : W) (pi li : Nat) (p : PoolSt) (l l' 
     a process state change, the death of the listener, a respawn -/
 theorem j_onListener (h : Bytes → HRes) (pi li : Nat) (f : Listener.S → Listener.S) (w : W) (k : Nat)
     (hf : ∀ l, LOK l → LT h { p := l } (f { p := l }) ∧ LOK (f { p := l }).p)
-    (hj : J h w k (fun _ => 0)) : J h (onListener pi li f w) k (fun _ => 0) := by
+    (hj : J h w k (fun _ => 0)) : J h (onListener pi li f w) k (fun _ => 0) ∧ Quiet w (onListener pi li f w) := by
   unfold onListener
   split
-  · exact hj
+  · exact ⟨hj, Quiet.refl w⟩
   · split
-    · exact hj
+    · exact ⟨hj, Quiet.refl w⟩
     · rename_i p hp
       split
-      · exact hj
+      · exact ⟨hj, Quiet.refl w⟩
       · rename_i l hl
         have hmem : l ∈ p.procs := List.mem_of_getElem? hl
         obtain ⟨⟨lo, ho, hns, hcons⟩, hok⟩ := hf l (hj.ls pi p l hp hmem)
@@ -845,8 +866,10 @@ theorem j_onListener (h : Bytes → HRes) (pi li : Nat) (f : Listener.S → List
         have hli : li < p.procs.length := (List.getElem?_eq_some_iff.mp hl).1
         have h2 := j_absorb h pi li (f { p := l }).outs _ ⟨{ p with procs := p.procs.set li (f { p := l }).p },
           by rw [getElem?_setPool]; simp [hp], by simpa using hli⟩ h1
-        have h3 := j_err h _ pi (fun _ => 0) (f { p := l }).err h2
-        exact ⟨h3.st, h3.ls, h3.sv, ledger_zero h _ pi k h3.led⟩
+        have h3 := j_err h _ pi (fun _ => 0) (f { p := l }).err h2.1
+        have hq0 : Quiet w (setPool w pi (fun q => { q with procs := q.procs.set li (f { p := l }).p })) :=
+          quiet_setPool w pi _ (fun q => by simp [kview])
+        exact ⟨⟨h3.st, h3.ls, h3.sv, ledger_zero h _ pi k h3.led⟩, Quiet.trans hq0 (Quiet.trans h2.2 (quiet_err _ _))⟩
 
 /-! ### `dispatch` -/
 
@@ -878,13 +901,18 @@ theorem j_go (h : Bytes → HRes) (pi e : Nat) (env : Bytes) : ∀ (fuel li : Na
     (dispatchEvent.go pi e env fuel li w).1.err = none ∧
     ((dispatchEvent.go pi e env fuel li w).2 = true → J h (dispatchEvent.go pi e env fuel li w).1 pi (fun _ => 0)) ∧
     ((dispatchEvent.go pi e env fuel li w).2 = false →
-      J h (dispatchEvent.go pi e env fuel li w).1 pi (fun x => if x = e then 1 else 0))
-  | 0, li, w, he, hj => ⟨he, by intro hh; simp [dispatchEvent.go] at hh, fun _ => hj⟩
+      J h (dispatchEvent.go pi e env fuel li w).1 pi (fun x => if x = e then 1 else 0)) ∧
+    Quiet w (dispatchEvent.go pi e env fuel li w).1
+  | 0, li, w, he, hj => ⟨he, (by intro hh; simp [dispatchEvent.go] at hh), fun _ => hj, Quiet.refl w⟩
   | fuel + 1, li, w, he, hj => by
     unfold dispatchEvent.go
     split
-    · exact ⟨he, by intro hh; simp at hh, fun _ => hj⟩
+    · exact ⟨he, (by intro hh; simp at hh), fun _ => hj, Quiet.refl w⟩
     · rename_i l hbind
+      have hqs : Quiet w { (setPool w pi (fun p => { p with procs := p.procs.set li (trySend e env { p := l }).1.p })) with
+          outs := (setPool w pi (fun p => { p with procs := p.procs.set li (trySend e env { p := l }).1.p })).outs ++
+            (trySend e env { p := l }).1.outs.map (POut.lis pi li) } :=
+        Quiet.trans (quiet_setPool w pi _ (fun q => by simp [kview])) (quiet_outs _ _)
       obtain ⟨p, hp, hl⟩ : ∃ p, w.pools[pi]? = some p ∧ p.procs[li]? = some l := by
         cases hp : w.pools[pi]? with
         | none => simp [hp] at hbind
@@ -907,7 +935,7 @@ theorem j_go (h : Bytes → HRes) (pi e : Nat) (env : Bytes) : ∀ (fuel li : Na
               · have : ¬ e = x := fun hh => hx hh.symm
                 simp [heldL, hnone, hsome, hx, this]) hj
         have h2 := j_outs_plain h _ pi li pi _ _ hplain h1
-        exact ⟨he, fun _ => h2, by intro hh; cases hh⟩
+        exact ⟨he, fun _ => h2, (by intro hh; cases hh), hqs⟩
       · have h1 := j_setProc h w pi li p l (trySend e env { p := l }).1.p _ (fun x => if x = e then 1 else 0) hp hl hok
           (by intro x; simp [heldL, hsame]) hj
         have h2 := j_outs_plain h _ pi li pi _ _ hplain h1
@@ -915,20 +943,23 @@ theorem j_go (h : Bytes → HRes) (pi e : Nat) (env : Bytes) : ∀ (fuel li : Na
         | sent => exact absurd hr hs
         | skipped =>
           simp only []
-          exact j_go h pi e env fuel (li + 1) _ he h2
+          obtain ⟨a, b, c, d⟩ := j_go h pi e env fuel (li + 1) _ (by exact he) h2
+          exact ⟨a, b, c, Quiet.trans hqs d⟩
         | epipe =>
           simp only []
-          exact j_go h pi e env fuel (li + 1) _ he h2
+          obtain ⟨a, b, c, d⟩ := j_go h pi e env fuel (li + 1) _ (by exact he) h2
+          exact ⟨a, b, c, Quiet.trans hqs d⟩
 
 theorem j_dispatchEvent (h : Bytes → HRes) (pi e : Nat) (w : W) (he : w.err = none)
     (hj : J h w pi (fun x => if x = e then 1 else 0)) :
     (dispatchEvent pi e w).1.err = none ∧
     ((dispatchEvent pi e w).2 = true → J h (dispatchEvent pi e w).1 pi (fun _ => 0)) ∧
-    ((dispatchEvent pi e w).2 = false → J h (dispatchEvent pi e w).1 pi (fun x => if x = e then 1 else 0)) := by
+    ((dispatchEvent pi e w).2 = false → J h (dispatchEvent pi e w).1 pi (fun x => if x = e then 1 else 0)) ∧
+    Quiet w (dispatchEvent pi e w).1 := by
   unfold dispatchEvent
   split
   · exact j_go h pi e _ _ 0 w he hj
-  · exact ⟨he, by intro hh; simp at hh, fun _ => hj⟩
+  · exact ⟨he, (by intro hh; simp at hh), fun _ => hj, Quiet.refl w⟩
 
 /-- `event_buffer.pop(0)`: the oldest event is in transit -/
 theorem j_pop (h : Bytes → HRes) (pi e : Nat) (rest : List Nat) (w : W) (p : PoolSt) (hp : w.pools[pi]? = some p)
@@ -967,26 +998,30 @@ theorem j_pop (h : Bytes → HRes) (pi e : Nat) (rest : List Nat) (w : W) (p : P
       exact hw
 
 theorem j_dispatch (h : Bytes → HRes) (pi : Nat) : ∀ (fuel : Nat) (w : W), w.err = none → J h w pi (fun _ => 0) →
-    J h (dispatch pi fuel w) pi (fun _ => 0)
-  | 0, w, _, hj => hj
+    J h (dispatch pi fuel w) pi (fun _ => 0) ∧ Quiet w (dispatch pi fuel w)
+  | 0, w, _, hj => ⟨hj, Quiet.refl w⟩
   | fuel + 1, w, he, hj => by
     unfold dispatch
     split
-    · exact hj
+    · exact ⟨hj, Quiet.refl w⟩
     · rename_i p hp
       split
-      · exact hj
+      · exact ⟨hj, Quiet.refl w⟩
       · rename_i e rest hb
         have h1 := j_pop h pi e rest w p hp hb hj
-        obtain ⟨g1, g2, g3⟩ := j_dispatchEvent h pi e (setPool w pi (fun p => { p with buffer := p.buffer.drop 1 })) he h1
+        have hq0 : Quiet w (setPool w pi (fun p => { p with buffer := p.buffer.drop 1 })) :=
+          quiet_setPool w pi _ (fun q => by simp [kview])
+        obtain ⟨g1, g2, g3, g4⟩ := j_dispatchEvent h pi e (setPool w pi (fun p => { p with buffer := p.buffer.drop 1 })) he h1
         simp only [g1, Option.isSome_none, Bool.false_eq_true, if_false]
         cases hok : (dispatchEvent pi e (setPool w pi (fun p => { p with buffer := p.buffer.drop 1 }))).2 with
         | true =>
           simp only [if_true]
-          exact j_dispatch h pi fuel _ g1 (g2 hok)
+          obtain ⟨a, b⟩ := j_dispatch h pi fuel _ g1 (g2 hok)
+          exact ⟨a, Quiet.trans hq0 (Quiet.trans g4 b)⟩
         | false =>
           simp only [Bool.false_eq_true, if_false]
-          exact j_rebuffer h pi e _ (fun _ => 0) (J.congr_d (by intro x; simp) (g3 hok))
+          have h3 : J h _ pi (fun x => (if x = e then 1 else 0) + 0) := J.congr_d (by intro x; simp) (g3 hok)
+          exact ⟨j_rebuffer h pi e _ (fun _ => 0) h3, Quiet.trans hq0 (Quiet.trans g4 (q_rebuffer h pi e _ (fun _ => 0) h3))⟩
 
 /-! ### every operation, every history -/
 
@@ -994,18 +1029,19 @@ theorem j_pool_irrelevant {h : Bytes → HRes} {w : W} (i k : Nat) (hj : J h w i
   ⟨hj.st, hj.ls, hj.sv, ledger_zero h w i k hj.led⟩
 
 theorem j_transition (h : Bytes → HRes) (pi k : Nat) (w : W) (hj : J h w k (fun _ => 0)) :
-    J h (transition pi w) k (fun _ => 0) := by
+    J h (transition pi w) k (fun _ => 0) ∧ Quiet w (transition pi w) := by
   unfold transition
   split
-  · exact hj
+  · exact ⟨hj, Quiet.refl w⟩
   · rename_i he
     have he' : w.err = none := by cases hw : w.err <;> simp_all
     split
-    · exact hj
+    · exact ⟨hj, Quiet.refl w⟩
     · simp only []
       split
-      · exact j_pool_irrelevant pi k (j_dispatch h pi _ w he' (j_pool_irrelevant k pi hj))
-      · exact hj
+      · obtain ⟨a, b⟩ := j_dispatch h pi _ w he' (j_pool_irrelevant k pi hj)
+        exact ⟨j_pool_irrelevant pi k a, b⟩
+      · exact ⟨hj, Quiet.refl w⟩
 
 theorem lt_pipeline (h : Bytes → HRes) (data : Bytes) (l : Lst) (hl : LOK l) :
     LT h { p := l } (({ p := l } : Listener.S) |> setP (fun p => { p with pipeBroken := true }) |> readEvent h data |> writeEvent) ∧
@@ -1027,8 +1063,8 @@ theorem j_dieOp (h : Bytes → HRes) (pi li k : Nat) (data payload : Bytes) (w :
         (fun s => s |> setP (fun p => { p with pipeBroken := true }) |> readEvent h data |> writeEvent) w k
         (fun l hl => lt_pipeline h data l hl) hj
       split
-      · exact h1
-      · exact j_onListener h pi li (die h []) _ k (fun l hl => lt_die h [] _ hl) (j_notify h _ payload _ k h1)
+      · exact h1.1
+      · exact (j_onListener h pi li (die h []) _ k (fun l hl => lt_die h [] _ hl) (j_notify h _ payload _ k h1.1)).1
 
 theorem j_spawnOp (h : Bytes → HRes) (pi li k : Nat) (pid : Int) (payload : Bytes) (w : W) (hj : J h w k (fun _ => 0)) :
     J h (spawnOp pi li pid payload w) k (fun _ => 0) := by
@@ -1039,20 +1075,20 @@ theorem j_spawnOp (h : Bytes → HRes) (pi li k : Nat) (pid : Int) (payload : By
     · exact hj
     · split
       · exact hj
-      · exact j_onListener h pi li (spawn pid) _ k (fun l hl => lt_spawn h pid _ hl) (j_notify h _ payload w k hj)
+      · exact (j_onListener h pi li (spawn pid) _ k (fun l hl => lt_spawn h pid _ hl) (j_notify h _ payload w k hj)).1
 
 theorem j_applyOp (h : Bytes → HRes) (w : W) (op : Op) (k : Nat) (hj : J h w k (fun _ => 0)) :
     J h (applyOp h w op) k (fun _ => 0) := by
   cases op <;> simp only [applyOp]
   · exact j_notify h _ _ w k hj
-  · exact j_transition h _ k w hj
-  · exact j_onListener h _ _ _ w k (fun l hl => lt_readEvent h _ _ hl) hj
-  · exact j_onListener h _ _ _ w k (fun l hl => lt_ns h (s := { p := l }) hl (ns_writeEvent _)) hj
-  · exact j_onListener h _ _ _ w k (fun l hl => lt_ns h (s := { p := l }) hl (ns_setPState _ _)) hj
-  · exact j_onListener h _ _ _ w k
-      (fun l hl => lt_ns h (s := { p := l }) hl (ns_setP _ _ ⟨rfl, rfl, rfl, rfl, rfl⟩)) hj
-  · exact j_onListener h _ _ _ w k
-      (fun l hl => lt_ns h (s := { p := l }) hl (ns_setP _ _ ⟨rfl, rfl, rfl, rfl, rfl⟩)) hj
+  · exact (j_transition h _ k w hj).1
+  · exact (j_onListener h _ _ _ w k (fun l hl => lt_readEvent h _ _ hl) hj).1
+  · exact (j_onListener h _ _ _ w k (fun l hl => lt_ns h (s := { p := l }) hl (ns_writeEvent _)) hj).1
+  · exact (j_onListener h _ _ _ w k (fun l hl => lt_ns h (s := { p := l }) hl (ns_setPState _ _)) hj).1
+  · exact (j_onListener h _ _ _ w k
+      (fun l hl => lt_ns h (s := { p := l }) hl (ns_setP _ _ ⟨rfl, rfl, rfl, rfl, rfl⟩)) hj).1
+  · exact (j_onListener h _ _ _ w k
+      (fun l hl => lt_ns h (s := { p := l }) hl (ns_setP _ _ ⟨rfl, rfl, rfl, rfl, rfl⟩)) hj).1
   · exact j_dieOp h _ _ k _ _ w hj
   · exact j_spawnOp h _ _ k _ _ w hj
 
@@ -1063,6 +1099,136 @@ theorem j_step (h : Bytes → HRes) (w : W) (op : Op) (k : Nat) (hj : J h w k (f
 theorem j_exec (h : Bytes → HRes) (k : Nat) : ∀ (ops : List Op) (w : W), J h w k (fun _ => 0) → J h (exec h w ops) k (fun _ => 0)
   | [], w, hj => hj
   | op :: ops, w, hj => j_exec h k ops (step h w op) (j_step h w op k hj)
+
+/-! ### acceptance is decided when the event is emitted -/
+
+/-- the events numbered below `n` keep their acceptance status (for every pool); the event table only grows -/
+def Keeps (n : Nat) (w w' : W) : Prop :=
+  w.events.length ≤ w'.events.length ∧ ∀ (i e : Nat), e < n → accepted w' i e = accepted w i e
+
+theorem Keeps.refl (n : Nat) (w : W) : Keeps n w w := ⟨Nat.le_refl _, fun _ _ _ => rfl⟩
+theorem Keeps.trans {n : Nat} {a b c : W} (h1 : Keeps n a b) (h2 : Keeps n b c) : Keeps n a c :=
+  ⟨Nat.le_trans h1.1 h2.1, fun i e he => (h2.2 i e he).trans (h1.2 i e he)⟩
+theorem Keeps.of_quiet (n : Nat) {w w' : W} (hq : Quiet w w') : Keeps n w w' :=
+  ⟨by rw [hq.1]; exact Nat.le_refl _, fun i e _ => hq.acc_eq i e⟩
+
+theorem keeps_serialStep (n e : Nat) (w : W) : Keeps n w (serialStep e w) := by
+  refine ⟨by simp [serialStep, setEv], fun i x _ => ?_⟩
+  refine accepted_congr rfl ?_
+  have : (serialStep e w).events[x]? = (setEv w e (fun x => { x with serial := some (newSerial w.gserial) })).events[x]? := rfl
+  rw [this, getElem?_setEv]
+  split
+  · cases w.events[x]? <;> rfl
+  · rfl
+
+theorem keeps_stamp (n i e : Nat) (p : PoolSt) (w : W) (hn : n ≤ e) : Keeps n w (stamp i e p w) := by
+  refine ⟨by simp [stamp, setEv], fun pj x hx => ?_⟩
+  refine accepted_congr ?_ ?_
+  · rw [stamp_pools]; split
+    · cases w.pools[pj]? <;> rfl
+    · rfl
+  · have : (stamp i e p w).events[x]? = _ := getElem?_setEv w e x _
+    rw [this, if_neg (by omega)]
+
+theorem keeps_accept_new (n i e : Nat) (head : Bool) (w : W) (p : PoolSt) (ev : Ev) (hp : w.pools[i]? = some p)
+    (hev : w.events[e]? = some ev) (hl : ev.poolSerials.lookup p.name = none) (hn : n ≤ e) :
+    Keeps n w (acceptEvent i e head w) := by
+  rw [acceptEvent_new i e head w p ev hp hev hl]
+  refine Keeps.trans (b := (if ev.serial.isNone then serialStep e w else w)) ?_
+    (Keeps.trans (keeps_stamp n i e p _ hn) (Keeps.of_quiet n (quiet_insertEv i e head _)))
+  split
+  · exact keeps_serialStep n e w
+  · exact Keeps.refl n w
+
+theorem keeps_accept_false (h : Bytes → HRes) (n i e k : Nat) (w : W) (hn : n ≤ e) (hj : J h w k (fun _ => 0)) :
+    Keeps n w (acceptEvent i e false w) := by
+  cases hp : w.pools[i]? with
+  | none => rw [acceptEvent_skip_id i e w (Or.inr (Or.inl hp))]; exact Keeps.refl n w
+  | some p =>
+    cases hev : w.events[e]? with
+    | none => rw [acceptEvent_skip_id i e w (Or.inr (Or.inr hev))]; exact Keeps.refl n w
+    | some ev =>
+      cases hl : ev.poolSerials.lookup p.name with
+      | some v =>
+        have hacc : accepted w i e = true := by simp [accepted, hp, hev, hl]
+        rw [acceptEvent_skip_id i e w (Or.inl (acc_of_accepted hj.sv i e hacc))]; exact Keeps.refl n w
+      | none => exact keeps_accept_new n i e false w p ev hp hev hl hn
+
+theorem keeps_offer (h : Bytes → HRes) (n e k : Nat) (hn : n ≤ e) : ∀ (l : List Nat) (w : W), e + 1 = w.events.length →
+    J h w k (fun _ => 0) → Keeps n w (l.foldl (fun acc i => acceptEvent i e false acc) w)
+  | [], w, _, _ => Keeps.refl n w
+  | i :: l, w, hlast, hj => by
+    simp only [List.foldl_cons]
+    exact Keeps.trans (keeps_accept_false h n i e k w hn hj)
+      (keeps_offer h n e k hn l _ (by rw [(evsLe_acceptEvent i e false w).1]; exact hlast) (j_accept_false h i e k w hlast hj))
+
+theorem keeps_notify (h : Bytes → HRes) (n k : Nat) (c : Cls) (payload : Bytes) (w : W) (hn : n ≤ w.events.length)
+    (hj : J h w k (fun _ => 0)) : Keeps n w (notify c payload w) := by
+  unfold notify
+  split
+  · exact Keeps.refl n w
+  · have h0 : Keeps n w { w with events := w.events ++ [{ cls := c, payload := payload }] } := by
+      refine ⟨by simp, fun i x hx => accepted_congr rfl ?_⟩
+      rw [List.getElem?_append_left (by omega)]
+    exact Keeps.trans h0 (keeps_offer h n _ k hn _ _ (by simp) (j_newEvent h w k _ c payload hj))
+
+theorem keeps_dieOp (h : Bytes → HRes) (n pi li k : Nat) (data payload : Bytes) (w : W) (hn : n ≤ w.events.length)
+    (hj : J h w k (fun _ => 0)) : Keeps n w (dieOp h pi li data payload w) := by
+  unfold dieOp
+  split
+  · exact Keeps.refl n w
+  · split
+    · exact Keeps.refl n w
+    · simp only []
+      have h1 := j_onListener h pi li
+        (fun s => s |> setP (fun p => { p with pipeBroken := true }) |> readEvent h data |> writeEvent) w k
+        (fun l hl => lt_pipeline h data l hl) hj
+      have k1 := Keeps.of_quiet n h1.2
+      split
+      · exact k1
+      · exact Keeps.trans k1 (Keeps.trans (keeps_notify h n k _ payload _ (Nat.le_trans hn k1.1) h1.1)
+          (Keeps.of_quiet n (j_onListener h pi li (die h []) _ k (fun l hl => lt_die h [] _ hl)
+            (j_notify h _ payload _ k h1.1)).2))
+
+theorem keeps_spawnOp (h : Bytes → HRes) (n pi li k : Nat) (pid : Int) (payload : Bytes) (w : W) (hn : n ≤ w.events.length)
+    (hj : J h w k (fun _ => 0)) : Keeps n w (spawnOp pi li pid payload w) := by
+  unfold spawnOp
+  split
+  · exact Keeps.refl n w
+  · split
+    · exact Keeps.refl n w
+    · split
+      · exact Keeps.refl n w
+      · exact Keeps.trans (keeps_notify h n k .PROCESS_STATE_STARTING payload w hn hj) (Keeps.of_quiet n
+          (j_onListener h pi li (spawn pid) _ k (fun l hl => lt_spawn h pid _ hl)
+            (j_notify h .PROCESS_STATE_STARTING payload w k hj)).2)
+
+theorem keeps_applyOp (h : Bytes → HRes) (n k : Nat) (w : W) (op : Op) (hn : n ≤ w.events.length)
+    (hj : J h w k (fun _ => 0)) : Keeps n w (applyOp h w op) := by
+  cases op <;> simp only [applyOp]
+  · exact keeps_notify h n k _ _ w hn hj
+  · exact Keeps.of_quiet n (j_transition h _ k w hj).2
+  · exact Keeps.of_quiet n (j_onListener h _ _ _ w k (fun l hl => lt_readEvent h _ _ hl) hj).2
+  · exact Keeps.of_quiet n (j_onListener h _ _ _ w k (fun l hl => lt_ns h (s := { p := l }) hl (ns_writeEvent _)) hj).2
+  · exact Keeps.of_quiet n (j_onListener h _ _ _ w k (fun l hl => lt_ns h (s := { p := l }) hl (ns_setPState _ _)) hj).2
+  · exact Keeps.of_quiet n (j_onListener h _ _ _ w k
+      (fun l hl => lt_ns h (s := { p := l }) hl (ns_setP _ _ ⟨rfl, rfl, rfl, rfl, rfl⟩)) hj).2
+  · exact Keeps.of_quiet n (j_onListener h _ _ _ w k
+      (fun l hl => lt_ns h (s := { p := l }) hl (ns_setP _ _ ⟨rfl, rfl, rfl, rfl, rfl⟩)) hj).2
+  · exact keeps_dieOp h n _ _ k _ _ w hn hj
+  · exact keeps_spawnOp h n _ _ k _ _ w hn hj
+
+theorem keeps_step (h : Bytes → HRes) (n k : Nat) (w : W) (op : Op) (hn : n ≤ w.events.length)
+    (hj : J h w k (fun _ => 0)) : Keeps n w (step h w op) :=
+  Keeps.trans (Keeps.of_quiet n (quiet_err w none)) (keeps_applyOp h n k _ op hn (j_err h w k _ none hj))
+
+/-- whether a pool has accepted an event that exists now is never changed by anything that happens later -/
+theorem keeps_exec (h : Bytes → HRes) (n k : Nat) : ∀ (ops : List Op) (w : W), n ≤ w.events.length → J h w k (fun _ => 0) →
+    Keeps n w (exec h w ops)
+  | [], w, _, _ => Keeps.refl n w
+  | op :: ops, w, hn, hj => by
+    have k1 := keeps_step h n k w op hn hj
+    exact Keeps.trans k1 (keeps_exec h n k ops (step h w op) (Nat.le_trans hn k1.1) (j_step h w op k hj))
 
 /-! ### a freshly configured daemon -/
 
